@@ -89,6 +89,36 @@ def _chunk(arg):
     return out
 
 
+PY_LINES = ["x = 1", "y = x + 1", "if x:", "    y = 2", "s = \"\"\"a", "b\"\"\"", "t = (1,", "2)", "# a comment", "z = 4 // 2", "d = {'a': 1}", "",
+            "  ", "for i in range(2):", "        z = i", "pass", "w = 'it''s'", "q = [", "]", "u = x  # note"]
+
+
+def py_body_family(rep, n):
+    """C17 on Python blocks: the legacy <<py ... >> form and the @py: ... @endpy form of the SAME body (any mix of
+    indentations, including lines less indented than the first, blank lines, whitespace-only lines) compile to the same
+    code, at passage level and inside an indented @if body"""
+    bad = 0
+    for idx in range(n):
+        r = rng_for(rep.seed, "pybody", idx)
+        body = [r.choice(["", "  ", "    ", "\t", "      "]) + r.choice(PY_LINES) for _ in range(r.randint(1, 6))]
+        if not any(l.strip() for l in body):
+            body.append("    x = 1")
+        for pad in ("", "  "):
+            forms = {}
+            for name, (op, cl) in {"legacy": ("<<py", ">>"), "at": ("@py:", "@endpy")}.items():
+                blk = [pad + op] + [pad + l for l in body] + [pad + cl]
+                src = ":: Start\n" + ("@if True:\n" + "\n".join(blk) + "\n@endif\n" if pad else "\n".join(blk) + "\n") + "done\n"
+                forms[name] = (src, compile_outcome(src))
+            (s1, o1), (s2, o2) = forms["legacy"], forms["at"]
+            if o1 != o2:
+                bad += 1
+                what = (f"first difference at {first_story_diff(o1[1], o2[1])}" if o1[0] == o2[0] == "ok" else f"{o1[0]} vs {o2[0]}: {o1[1] if o1[0] != 'ok' else o2[1]}")
+                rep.violations.append({"cls": None, "family": "c17-pybody", "what": "the <<py ... >> form and the @py: ... @endpy form of the same body compile differently: " + str(what)[:200],
+                                       "source": s1, "base_source": s2})
+    rep.coverage.setdefault("families", {})["c17-pybody"] = {"cases": n * 2, "differing": bad}
+    rep.coverage["evaluations"] = rep.coverage.get("evaluations", 0) + n * 2
+
+
 def string_level(rep, seed, n):
     """strip_inline_comment and detect_and_strip_indentation vs their Lean models on random strings"""
     from bardic.compiler.parsing.preprocessing import strip_inline_comment
